@@ -110,6 +110,12 @@ class ClassRef:
     def __init__(self, info: "ClassInfo"):
         self.info = info
 
+    def __eq__(self, o):
+        return isinstance(o, ClassRef) and o.info is self.info
+
+    def __hash__(self):
+        return hash(id(self.info))
+
     def __repr__(self):
         return f"<class {self.info.qualname}>"
 
